@@ -41,7 +41,8 @@ BUDGET = {'quick': 5000, 'thorough': 80000}
 K_TOL = 4
 TOLERANCES = {
     'aliased_vs_outofplace': '|y-r| <= 4*eps(dtype)*max(|r|,|y|,|x|) per '
-                             'leaf; exact for selections / constants '
+                             'leaf (eps of the coarsest leaf in mixed-'
+                             'precision product spaces); exact for selections / constants '
                              '(identity, box projection, constant, zero); '
                              'NaN / inf at identical positions',
     'fresh_inplace_vs_outofplace': '16*eps*max(|r|,|z|) (C03\'s tolerance)',
@@ -190,6 +191,8 @@ def run_case(desc):
     # tolerance scale includes |x| (cancellation in x - shrink(x))
     la, lb = _leaves(target, ran), _leaves(r, ran)
     xs = _maxabs(x, dom)
+    epsmax = max([np.finfo(np.asarray(a).dtype).eps for a in la
+                  if np.asarray(a).dtype.kind in 'fc'] or [0.0])
     bad = None
     for i, (a, b) in enumerate(zip(la, lb)):
         a, b = np.asarray(a), np.asarray(b)
@@ -208,7 +211,7 @@ def run_case(desc):
             ok = np.array_equal(a[fa], b[fa])
             tol = 0.0
         else:
-            eps = np.finfo(a.dtype).eps
+            eps = max(np.finfo(a.dtype).eps, epsmax)
             scale = max(np.abs(a[fa]).max(), np.abs(b[fa]).max(), xs)
             tol = K_TOL * eps * scale + 4 * np.finfo(a.dtype).tiny
             ok = bool((np.abs(a[fa] - b[fa]) <= tol).all())
